@@ -17,7 +17,7 @@ pub fn meta() -> PropertyMeta {
     PropertyMeta {
         id: "C14",
         level: "exploration",
-        rule: "all 65536 i16 error numbers through Error::custom(..).esr_mask(), ErrorCode::Custom(..).esr_mask() and ErrorCode::get_error (exhaustive); plus a labelled stream of errors produced by lexing, dispatch and conversion of generated faulty messages whose class is known by construction; malformed channel lists (EVERY string of up to 9 (11) characters over 1 2 ! : , and up to 10 (13) over 1 ! : , after the '@'; grammar-generated lists after 1..2 single-character mutations) iterated and converted to the tuple type of each spec's own dimension count: every error raised is a command error. Non-trivial: a code within 1 of a century boundary, positive, or below -899; or a generated fault whose error was produced by the library.",
+        rule: "all 65536 i16 error numbers through Error::custom(..).esr_mask(), ErrorCode::Custom(..).esr_mask() and ErrorCode::get_error (exhaustive); plus a labelled stream of errors produced by lexing, dispatch and conversion of generated faulty messages whose class is known by construction; malformed channel lists (EVERY string of up to 9 (11) characters over 1 2 ! : , and up to 10 (13) over 1 ! : , and up to 8 (9) over 1 ! : , - + after the '@'; grammar-generated lists after 1..2 single-character mutations) iterated and converted to the tuple type of each spec's own dimension count: every error raised is a command error. Non-trivial: a code within 1 of a century boundary, positive, or below -899; or a generated fault whose error was produced by the library.",
         assumptions: &[
             "class table is transcribed from the property statement (IEEE 488.2 11.5.1.1, SCPI-99 21.8)",
             "no independent list of all standard error numbers is asserted; only get_error(c)=Some(e) => e.get_code()==c and presence of the class representatives",
@@ -309,6 +309,9 @@ fn run(e: &Engine) {
     let alpha4 = crate::gen::enumstr::Partitioned { alpha: b"1!:,", max_len: e.tier.pick(10, 13), prefix_len: 3 };
     let a4 = &alpha4;
     e.enumerate::<ListFault, _, _>("every-short-channel-list-one-digit", alpha4.parts(), move |part, f| a4.run(part, &mut |s| f(ListFault { text: crate::bytes::B([b"@", s].concat()) })), check_list_fault);
+    let alpha6 = crate::gen::enumstr::Partitioned { alpha: b"1!:,-+", max_len: e.tier.pick(8, 9), prefix_len: 3 };
+    let a6 = &alpha6;
+    e.enumerate::<ListFault, _, _>("every-short-channel-list-with-signs", alpha6.parts(), move |part, f| a6.run(part, &mut |s| f(ListFault { text: crate::bytes::B([b"@", s].concat()) })), check_list_fault);
     e.proptest("mutated-channel-lists", e.tier.pick(200_000, 5_000_000), list_fault_strategy, check_list_fault);
     for l in ["fault: lexical", "fault: element type", "fault: value (range / not in set)", "fault: header / arity", "fault: response buffer exhausted"] {
         if !e.replay_only && !e.failed() && e.label_count(l) < 1000 {
